@@ -37,6 +37,7 @@ func (e *Engine) VerifyFunc(fn *ssa.Function, blk *Block, props []string) (err e
 	e.curFunc = FuncKey(fn)
 	e.curProps = props
 	e.freshRefs = map[*Term]bool{}
+	e.localArrays = nil
 	if blk != nil && len(blk.Props) > 0 && props == nil {
 		e.curProps = blk.Props
 	}
@@ -70,24 +71,42 @@ func (e *Engine) VerifyFunc(fn *ssa.Function, blk *Block, props []string) (err e
 	}
 	x.entry = s
 	x.ghostCells = map[string]*Cell{}
-	if blk != nil {
-		for _, cl := range blk.Of("ghostvar") {
-			f := strings.Fields(cl.Text)
-			if len(f) >= 2 {
-				if pk := e.P.PkgOf(fn); pk != nil {
-					if obj := pk.Types.Scope().Lookup(f[0]); obj != nil {
-						cell := e.newCell(f[0], obj.Type())
-						x.ghostCells[f[0]] = cell
-						s.cells[cell] = e.zero(obj.Type())
-					}
-				}
+	if pk := e.P.PkgOf(fn); pk != nil && blk != nil {
+		// every ghost variable declared in the package (function or monitor blocks)
+		names := pk.Types.Scope().Names()
+		for _, n := range names {
+			if !strings.HasPrefix(n, "Ghost_") {
+				continue
 			}
+			obj := pk.Types.Scope().Lookup(n)
+			cell := e.newCell(n, obj.Type())
+			x.ghostCells[n] = cell
+			s.cells[cell] = e.zero(obj.Type())
 		}
 	}
 	if blk != nil {
+		for _, cl := range blk.Of("ghostinit") {
+			asg := strings.SplitN(cl.Text, "=", 2)
+			if len(asg) != 2 {
+				continue
+			}
+			if cell, ok := x.ghostCells[strings.TrimSpace(asg[0])]; ok {
+				sub := &Clause{Kind: "ghostinit", Text: strings.TrimSpace(asg[1]), File: cl.File, Line: cl.Line, Label: "init"}
+				if v := x.evalClause(sub, s, token.NoPos); v != nil {
+					s.cells[cell] = v
+				}
+			}
+		}
 		for _, cl := range blk.Of("requires") {
 			g := x.evalClauseBool(cl, s, token.NoPos)
 			s.assume(c, g)
+		}
+		// "assume": an environment assumption of this function's proof that
+		// callers are NOT asked to establish (listed in the evidence)
+		for _, cl := range blk.Of("assume") {
+			g := x.evalClauseBool(cl, s, token.NoPos)
+			s.assume(c, g)
+			e.Assumed[shortFuncKey(fn)+": "+cl.Text] = true
 		}
 		// monitor invariants assumed by "holds" are handled by monitor code
 		x.assumeEntryMonitors(s, blk)
@@ -148,6 +167,20 @@ func (e *Engine) VerifyFunc(fn *ssa.Function, blk *Block, props []string) (err e
 	}
 	defer func() {
 		for _, ob := range e.Obls[start:] {
+			if blk != nil {
+				// "waive <kind>[:<label>] :: reason": the obligation is generated and
+				// reported as NOT proved, but does not count as a violation
+				for _, cl := range blk.Of("waive") {
+					parts := strings.SplitN(cl.Text, "::", 2)
+					f := strings.SplitN(strings.TrimSpace(parts[0]), ":", 2)
+					if ob.Kind == f[0] && (len(f) == 1 || strings.Contains(ob.Label, f[1])) && ob.Status == "" {
+						ob.Status = "waived"
+						if len(parts) == 2 {
+							ob.Err = strings.TrimSpace(parts[1])
+						}
+					}
+				}
+			}
 			ob.Hints = hints
 			ob.ModelTerms = wTerms
 			ob.ModelNames = wNames
@@ -422,6 +455,7 @@ func shortHeapKey(k string) string {
 
 type frameTarget struct {
 	keyPrefix string
+	so      *Sort // sort of the heap array of key
 	key     string
 	ref     *Term
 	arr     *Term
@@ -457,11 +491,11 @@ func (x *exec) frameTargets(env *specEnv, be *boundExpr, wild bool, cl *Clause) 
 				}
 			case PLeaf:
 				for _, l := range e.leavesOf(p.T) {
-					out = append(out, frameTarget{key: p.Key + l.comp, ref: p.Ref})
+					out = append(out, frameTarget{key: p.Key + l.comp, ref: p.Ref, so: Array(Int, l.sort)})
 				}
 			case PBox:
 				for _, l := range e.leavesOf(p.T) {
-					out = append(out, frameTarget{key: boxKey(p.T) + l.comp, ref: p.Ref})
+					out = append(out, frameTarget{key: boxKey(p.T) + l.comp, ref: p.Ref, so: Array(Int, l.sort)})
 				}
 			case PElem:
 				if structOf(p.T) != nil {
@@ -469,7 +503,7 @@ func (x *exec) frameTargets(env *specEnv, be *boundExpr, wild bool, cl *Clause) 
 					return
 				}
 				for _, l := range e.leavesOf(p.T) {
-					out = append(out, frameTarget{key: p.elemKeyOf() + l.comp, ref: p.Arr, off: p.Idx, ln: c.IntC(1), row: true})
+					out = append(out, frameTarget{key: p.elemKeyOf() + l.comp, ref: p.Arr, off: p.Idx, ln: c.IntC(1), row: true, so: Array(Int, Array(Int, l.sort))})
 				}
 			case PElemObj:
 				st := structOf(p.T)
@@ -488,7 +522,7 @@ func (x *exec) frameTargets(env *specEnv, be *boundExpr, wild bool, cl *Clause) 
 	}
 	if structOf(el) == nil {
 		for _, l := range e.leavesOf(el) {
-			out = append(out, frameTarget{key: elemKey(el) + l.comp, ref: base.Arr, off: base.Off, ln: base.Len, row: true})
+			out = append(out, frameTarget{key: elemKey(el) + l.comp, ref: base.Arr, off: base.Off, ln: base.Len, row: true, so: Array(Int, Array(Int, l.sort))})
 		}
 		return out
 	}
@@ -499,7 +533,7 @@ func (x *exec) frameTargets(env *specEnv, be *boundExpr, wild bool, cl *Clause) 
 				continue
 			}
 		}
-		out = append(out, frameTarget{key: lp.key, ref: base.Arr, off: base.Off, ln: base.Len, row: true})
+		out = append(out, frameTarget{key: lp.key, ref: base.Arr, off: base.Off, ln: base.Len, row: true, so: Array(Int, Array(Int, lp.sort))})
 	}
 	return out
 }
